@@ -120,6 +120,10 @@ type Parser struct {
 
 	// How deeply nested is the expression we're parsing?
 	depth int
+
+	// chain counts the operators applied so far by the expressions
+	// we are in the middle of parsing.
+	chain int
 }
 
 // maxDepth is the deepest nesting of expressions and blocks we accept.
@@ -128,6 +132,16 @@ type Parser struct {
 // a limit a pathologically nested script would exhaust the stack of
 // the host-application instead of being reported as an error.
 const maxDepth = 1000
+
+// maxChain is the longest chain of operators we accept.
+//
+// A chain such as "a + b + c + .." is parsed by a loop, not recursively,
+// but the tree it produces is as deep as the chain is long, and that
+// tree is walked recursively afterwards (by the compiler, and when it
+// is printed): a pathologically long chain would exhaust the stack of
+// the host-application there.  Every operator costs at least two bytes
+// of bytecode, so a longer chain could not fit our 64k limit anyway.
+const maxChain = 32768
 
 // New returns a new parser.
 //
@@ -325,8 +339,12 @@ func (p *Parser) parseExpressionStatement() *ast.ExpressionStatement {
 func (p *Parser) parseExpression(precedence int) ast.Expression {
 
 	// Keep track of how deeply nested we are.
+	links := 0
 	p.depth++
-	defer func() { p.depth-- }()
+	defer func() {
+		p.depth--
+		p.chain -= links
+	}()
 	if p.depth > maxDepth {
 		msg := fmt.Sprintf("expression nested too deeply around %s", p.curToken.Position())
 		p.errors = append(p.errors, msg)
@@ -360,6 +378,16 @@ func (p *Parser) parseExpression(precedence int) ast.Expression {
 			p.errors = append(p.errors, msg)
 			return leftExp
 		}
+
+		// Each operator makes the tree one level deeper.
+		links++
+		p.chain++
+		if p.chain > maxChain {
+			msg := fmt.Sprintf("too many operators in one expression around %s", p.curToken.Position())
+			p.errors = append(p.errors, msg)
+			return nil
+		}
+
 		p.nextToken()
 		leftExp = infix(leftExp)
 
